@@ -637,10 +637,16 @@ func (w *world) point(op, rel string) error {
 	if op == "renameat2" && w.nosup {
 		return unix.ENOTSUP
 	}
-	if w.xdev && (op == "renameat" || op == "renameat2") && occ == 0 && !strings.Contains(rel, "<tmp>") {
-		// "a rename crosses devices": the rename of the staged file into place
-		// (first rename aimed at this target) reports EXDEV.
-		return unix.EXDEV
+	if w.xdev && (op == "renameat" || op == "renameat2") {
+		// "a rename crosses devices": the rename of the staged file into place -
+		// the first rename aimed at this target, whichever rename variant is
+		// used - reports EXDEV; later renames to the same target (the
+		// intermediate file's) proceed for real.
+		n := w.counts["rename-to "+rel]
+		w.counts["rename-to "+rel] = n + 1
+		if n == 0 {
+			return unix.EXDEV
+		}
 	}
 	return nil
 }
